@@ -242,7 +242,8 @@ class ScoOperationsRegistry(AbstractScoOperationsRegistry):
             )
             return InvocationState.FAILED
 
-        return InvocationState.FINISHED
+        # response and report of a transaction must tell the same final state
+        return execute_result.invocation_state
 
     def start_worker(self):
         """Start worker thread."""
